@@ -321,3 +321,96 @@ func init() {
 		}
 	}
 }
+
+// conn wfail: a write on the connection fails with an error that does not end the connection
+// (a write timeout, a temporary error). The connection goes on reading; its close notification
+// has nothing to report yet and fires only when the connection really ends (C14).
+//
+//   conn wfail cn=<1 before the write|2 after it> kind=<timeout|temp> => w=<err|ok> early=<quiet|fired> alive=<0|1> end=<fired|quiet>
+func execConnWFail(toks []string) string {
+	cnS, _ := kvGet(toks, "cn")
+	kind, _ := kvGet(toks, "kind")
+	got := make(chan diam.Conn, 4)
+	var second int32
+	h := diam.HandlerFunc(func(c diam.Conn, m *diam.Message) {
+		switch m.Header.HopByHopID {
+		case 1:
+			got <- c
+		case 2:
+			atomic.StoreInt32(&second, 1)
+		}
+	})
+	mc := newMemConn()
+	var failed int32
+	mc.writeHook = func(c *memConn, b []byte) (int, error) {
+		if atomic.CompareAndSwapInt32(&failed, 0, 1) {
+			if kind == "temp" {
+				return 0, tempWriteErr{}
+			}
+			return 0, timeoutErr{}
+		}
+		c.record(b)
+		return len(b), nil
+	}
+	if _, err := diam.NewConn(mc, "mem", h, dict.Default); err != nil {
+		return "err"
+	}
+	mc.deliver(simpleMsg(280, 0x80, 0, 1, 1, diam.NewAVP(264, 0x40, 0, datatype.DiameterIdentity("a"))))
+	var c diam.Conn
+	select {
+	case c = <-got:
+	case <-time.After(time.Second):
+		return "no-dispatch"
+	}
+	var cn <-chan struct{}
+	if cnS == "1" {
+		cn = c.(diam.CloseNotifier).CloseNotify()
+	}
+	waitFor(mc.readerParked, time.Second)
+	m := diam.NewRequest(272, 4, dict.Default)
+	m.NewAVP(263, 0x40, 0, datatype.UTF8String("x"))
+	w := "ok"
+	if _, err := m.WriteTo(c); err != nil {
+		w = "err"
+	}
+	if cnS != "1" {
+		cn = c.(diam.CloseNotifier).CloseNotify()
+	}
+	early := "quiet"
+	select {
+	case <-cn:
+		early = "fired"
+	case <-time.After(30 * time.Millisecond):
+	}
+	mc.deliver(simpleMsg(280, 0x80, 0, 2, 2, diam.NewAVP(264, 0x40, 0, datatype.DiameterIdentity("a"))))
+	alive := 0
+	if waitFor(func() bool { return atomic.LoadInt32(&second) == 1 }, time.Second) {
+		alive = 1
+	}
+	mc.peerEOF()
+	end := "quiet"
+	select {
+	case <-cn:
+		end = "fired"
+	case <-time.After(time.Second):
+	}
+	mc.Close()
+	return fmt.Sprintf("w=%s early=%s alive=%d end=%s", w, early, alive, end)
+}
+
+type tempWriteErr struct{}
+
+func (tempWriteErr) Error() string   { return "scripted temporary write error" }
+func (tempWriteErr) Timeout() bool   { return false }
+func (tempWriteErr) Temporary() bool { return true }
+
+func init() {
+	executors["conn wfail"] = execConnWFail
+	connGens["wfail"] = func(r *RNG, n int, op string, emit func(string)) {
+		for _, cn := range []int{1, 2} {
+			for _, k := range []string{"timeout", "temp"} {
+				emit(fmt.Sprintf("conn wfail cn=%d kind=%s", cn, k))
+			}
+		}
+	}
+}
